@@ -234,10 +234,13 @@ def make_path(group=None, channel=None):
     return '/' + '/'.join("'" + p.replace("'", "''") + "'" for p in parts)
 
 
-def encode(segs, planter=None, index_too=True):
-    """Encode a list of Seg.  Raises Invalid for encodings the format forbids."""
+def encode(segs, planter=None, index_too=True, allow_forbidden=False):
+    """Encode a list of Seg.  Raises Invalid for encodings the format forbids; with allow_forbidden the three
+    forbidden encodings a reader must reject (first segment without metadata, matches-previous for an object without
+    index, data type change) are emitted anyway and recorded in enc.forbidden."""
     pl = planter or Planter()
     enc = Encoded()
+    enc.forbidden = None
     out = BytesEmitter()
     idx = BytesEmitter()
     active, has_data, last_index = [], {}, {}     # carried state of the format
@@ -245,7 +248,9 @@ def encode(segs, planter=None, index_too=True):
         big = seg.big
         if not seg.meta:
             if si == 0:
-                raise Invalid("first segment without metadata")
+                if not allow_forbidden:
+                    raise Invalid("first segment without metadata")
+                enc.forbidden = enc.forbidden or "first segment without metadata"
         else:
             if seg.newobj:
                 active, has_data = [], {}
@@ -258,13 +263,19 @@ def encode(segs, planter=None, index_too=True):
                 seen_here.add(o.path)
                 if o.kind == 'full':
                     if o.path in last_index and last_index[o.path][0] != o.tcode:
-                        raise Invalid("channel changes data type")
+                        if not allow_forbidden:
+                            raise Invalid("channel changes data type")
+                        enc.forbidden = enc.forbidden or "channel changes data type"
                     last_index[o.path] = (o.tcode, o.nv, o)
                     has_data[o.path] = True
                 elif o.kind == 'same':
                     if o.path not in last_index:
-                        raise Invalid("matches-previous for an object without index")
-                    has_data[o.path] = True
+                        if not allow_forbidden:
+                            raise Invalid("matches-previous for an object without index")
+                        enc.forbidden = enc.forbidden or "matches-previous for an object without index"
+                        has_data[o.path] = False
+                    else:
+                        has_data[o.path] = True
                 elif o.kind == 'nodata':
                     has_data[o.path] = False
                 else:
